@@ -537,9 +537,10 @@ impl ConfigActor {
             if let Some(raft) = weak_raft.upgrade() {
                 //TODO换成feature,非wait的方式
                 raft.client_write(ClientWriteRequest::new(req)).await?;
+                return Ok(());
             }
         }
-        Ok(())
+        Err(anyhow::anyhow!("raft is not ready"))
     }
 
     pub fn get_config_info_page(&self, param: &ConfigQueryParam) -> (usize, Vec<ConfigInfoDto>) {
@@ -893,14 +894,16 @@ impl Handler<ConfigAsyncCmd> for ConfigActor {
                             op_time: now_millis_i64(),
                             op_user,
                         };
-                        Self::send_raft_request(&raft, req).await.ok();
+                        Self::send_raft_request(&raft, req).await?;
+                    } else {
+                        return Err(anyhow::anyhow!("config history id is not available"));
                     }
                 }
                 ConfigAsyncCmd::Delete(key) => {
                     let req = ClientRequest::ConfigRemove {
                         key: key.build_key(),
                     };
-                    Self::send_raft_request(&raft, req).await.ok();
+                    Self::send_raft_request(&raft, req).await?;
                 }
             }
             Ok(ConfigResult::NULL)
